@@ -19,6 +19,18 @@ if "def" in ast.unparse(ast.parse("𝕕𝕖𝕗 = 1")):
 
     true_unparse = ast.unparse
 
+    def _mince(v):
+        # We refer to this transformation as "keyword mincing"
+        # in documentation.
+        return chr(ord(v[0]) - ord("a") + ord("𝐚")) + v[1:]
+
+    def _is_kw(v):
+        return (
+            type(v) is str
+            and keyword.iskeyword(v)
+            and v not in ("True", "False", "None")
+        )
+
     def rewriting_unparse(ast_obj):
         ast_obj = copy.deepcopy(ast_obj)
         for node in ast.walk(ast_obj):
@@ -27,14 +39,11 @@ if "def" in ast.unparse(ast.parse("𝕕𝕖𝕗 = 1")):
                 continue
             for field in node._fields:
                 v = getattr(node, field, None)
-                if (
-                    type(v) is str
-                    and keyword.iskeyword(v)
-                    and v not in ("True", "False", "None")
-                ):
-                    # We refer to this transformation as "keyword mincing"
-                    # in documentation.
-                    setattr(node, field, chr(ord(v[0]) - ord("a") + ord("𝐚")) + v[1:])
+                if _is_kw(v):
+                    setattr(node, field, _mince(v))
+                elif type(v) is list and any(map(_is_kw, v)):
+                    # E.g., the names of a `global` statement.
+                    setattr(node, field, [_mince(x) if _is_kw(x) else x for x in v])
         return true_unparse(ast_obj)
 
     ast.unparse = rewriting_unparse
